@@ -64,6 +64,22 @@ fn decode_case(em: &mut Emitter, mode: u8, c: &[u8]) {
                     }
                 }
             }
+            // equality is by unused-bit count AND octets: the same data octets under another count are another value
+            if let Some(a) = &take {
+                if c.len() >= 2 {
+                    let mut c2 = c.to_vec(); c2[0] = (c[0] + 1) % 8;
+                    let t3 = tlv(0x03, &c2);
+                    if let Ok(b) = Constructed::decode(t3.as_slice().into_source(), mode_of(mode), |cons| BitString::take_from(cons)) {
+                        if *a == b || !(*a != b) { lazy_same = false; }
+                    }
+                    let mut c3 = c.to_vec(); let l = c3.len(); c3[l - 1] ^= 0x80;
+                    let t4 = tlv(0x03, &c3);
+                    if let Ok(b) = Constructed::decode(t4.as_slice().into_source(), mode_of(mode), |cons| BitString::take_from(cons)) {
+                        if *a == b { lazy_same = false; }
+                    }
+                }
+                if *a != a.clone() || *a != BitString::new(a.unused(), a.octet_bytes()) { lazy_same = false; }
+            }
             if mode != 1 {
                 let es = Constructed::decode([0x30u8, 0x00].as_ref().into_source(), mode_of(mode), |cons| cons.take_sequence(|k| BitString::skip_in(k))).is_ok();
                 let et = Constructed::decode([0x30u8, 0x00].as_ref().into_source(), mode_of(mode), |cons| cons.take_sequence(|k| BitString::take_from(k).map(|_| ()))).is_ok();
@@ -75,7 +91,7 @@ fn decode_case(em: &mut Emitter, mode: u8, c: &[u8]) {
             Some((take, skip, ctake, cskip, lazy_same)) => {
                 let exp = ref_accept(mode, c);
                 let mut obs = Ints::new();
-                let mut orc = if lazy_same { Oracle::Pass } else { Oracle::Fail("bit-string-take-and-skip-disagree-across-sources-or-accept-where-no-complete-bit-string-is".into()) };
+                let mut orc = if lazy_same { Oracle::Pass } else { Oracle::Fail("bit-string-take-and-skip-disagree-across-sources-or-accept-where-no-complete-bit-string-is-or-equality-is-not-by-count-and-octets".into()) };
                 match &take {
                     Some(bs) => {
                         let oct = bs.octet_bytes();
